@@ -35,7 +35,7 @@ MANIFEST = {
     "note": "Equality with the internal regions defined by the dl_esm_inf "
             "library and the points visited at run time are not decided.",
     "technique": "symbolic table extraction + affine envelope check + "
-                 "def-use of parsed fields + who-may-write scan",
+                 "def-use of parsed fields + who-may-write scan + refusal-weakening check against the reviewed guard snapshot",
 }
 GO = "src/psyclone/gocean1p0.py"
 BOUND = re.compile(r"^\{(start|stop)\}([+-]\d+)?$")
